@@ -25,4 +25,10 @@ META = {
         "note": "Trusted: Lean kernel; extractor (tables); fmt %q = strconv.Quote and strconv.Unquote as transcribed in Model/Quote, Model/Unquote (differentially checked); strings.ToLower on ASCII.",
         "technique": "Lean 4 invariant proof by induction over registration histories (decide on regenerated tables); differential random histories",
     },
+    "C16": {
+        "text": "Partial proof: the logic logg contributes - which zone (three-valued mode x local-time flag) and which layout (logger layout, else the flag table, else the default) - is regenerated from appendTimestamp and proved equal to the statement's rule for every mode value and flag word; setter semantics proved. The rendering of an instant with a layout and the round trip through time.Parse belong to Go's time package; they are exercised on generated instants by the correspondence and the oracle, not proved.",
+        "design_ref": "DESIGN.md §7 C16",
+        "note": "Trusted / not modelled: time.AppendFormat and time.Parse. Trusted: Lean kernel, extractor.",
+        "technique": "Lean 4 proof of the regenerated selection logic (bit arithmetic, case analysis); differential run with time texts as atoms",
+    },
 }
